@@ -532,6 +532,8 @@ namespace cgi {
 			}
 
 			std::ostringstream ss;
+			// not the global locale: one with digit grouping would write a chunk size like 1,000
+			ss.imbue(std::locale::classic());
 			ss << std::hex << in.bytes_count() << "\r\n";
 			chunked_header_ = std::move(ss.str());
 			char const *trailer = "\r\n";
